@@ -18,7 +18,7 @@ RULE = ('Exhaustive part (replayed first in every run): each of the 5 level-1 an
         'disk, and against the identities the transforms and their hand-written gradients assume (symmetry, biorthogonal PR, '
         'orthonormality, tree b = reverse(tree a), synthesis = reverse(analysis), band-pass variants included); the two extra '
         'files (8-array level-1 tables of the legacy classes) are checked for load-equality only. Generated part: histories (lists of up to 30 '
-        'operations: load, load-again, construct a DTCWT / scattering module, run it forward, run forward+backward, drop the '
+        'operations: load, load-again, a request through a loader that does not fit the table, construct a DTCWT / scattering / legacy module, run it forward, run forward+backward, drop the '
         'cache) with the invariant after every step that every table still equals the file on disk. Non-trivial history = at '
         'least one module call between two loads of the same table. Distinct = operation sequence.')
 ASSUMPTIONS = ['reference tables: dtcwt 0.14 package data', 'q-shift tables are stored to ~9 digits: orthonormality tolerance 1e-7',
@@ -47,7 +47,9 @@ def _case(draw, unit):
         st.tuples(st.just('construct'), st.sampled_from(MODS), st.sampled_from(LEVEL1[:4]), st.sampled_from(QSHIFT[:5])),
         st.tuples(st.just('call'), st.integers(0, 7), st.integers(0, 3)),
         st.tuples(st.just('backward'), st.integers(0, 7), st.integers(0, 3)),
-        st.tuples(st.just('drop_cache')))
+        st.tuples(st.just('drop_cache')),
+        st.tuples(st.just('wrong_loader'), st.sampled_from(names), st.integers(0, 2)),
+        st.tuples(st.just('wrong_loader'), st.sampled_from(names), st.integers(0, 2)))
     first = draw(st.tuples(st.just('construct'), st.sampled_from(MODS), st.sampled_from(LEVEL1[:4]),
                            st.sampled_from(QSHIFT[:5])))
     used = [first[2], first[3], 'near_sym_b_bp', 'qshift_b_bp']
@@ -245,6 +247,19 @@ def _history(case, r):
             for n in calls_since:
                 calls_since[n] += 1
             r.label('module_call')
+        elif kind == 'wrong_loader':
+            # a request through a loader that does not fit the table (rejected on the pinned tree): whatever it
+            # does, later proper loads must be unaffected
+            fn = [lambda n: pc.level1(n), lambda n: pc.biort(n), lambda n: pc.qshift(n)][op[2]]
+            lib(fn, op[1])
+            r.label('wrong_loader_request')
+            loaded.setdefault(op[1], None)
+            if loaded[op[1]] is None:
+                ok, t = lib(_load, op[1])
+                if not ok:
+                    return r.fail('load_after_rejected_request', 'after a rejected request for %s through another loader the '
+                                  'proper load raises: %s' % (op[1], t))
+                loaded[op[1]] = {k: np.array(v, copy=True) for k, v in t.items()}
         elif kind == 'drop_cache':
             if isinstance(getattr(pc, 'COEFF_CACHE', None), dict):
                 pc.COEFF_CACHE.clear()
